@@ -51,7 +51,7 @@ def ob_iv(which):
         check_all_panics(stats, paths)
         for ctx, (dom, log, key, (cnt, br, dr), r) in live_paths(paths):
             if len(log["new"]) != 1:
-                raise Violation("%s::new builds %d generators" % (which, len(log["new"])))
+                raise Inconclusive("structure not recognised (no verdict): " + "%s::new builds %d generators" % (which, len(log["new"])))
             k, iv = log["new"][0]
             C, B, D = dom.term(cnt), dom.term(br), dom.term(dr)
             hy = ctx.facts + ctx.pc + [z3.ULT(B, 32), z3.ULT(D, 2)]
